@@ -1243,7 +1243,7 @@ class PeriodicFinder:
             valid_norms = np.prod(norms[valid_indices], axis=1)
             areas = valid_norms * sin_angle
             smallest_area = areas.min()
-            smallest_cells_filter = areas < (1 + self.cell_size_tol) * smallest_area
+            smallest_cells_filter = areas <= (1 + self.cell_size_tol) * smallest_area
             valid_indices = valid_indices[smallest_cells_filter]
 
             # From the group with smallest area find a combination with
